@@ -67,12 +67,12 @@ fn push_new(module: &mut Module, kind: &str, name: &str) {
 
 /// the MODULE-level sequence of (kind, name) in a written text: a small independent scanner
 /// (strings with both escape forms, both comment kinds, A2ML blocks are skipped)
-pub fn scan_module_level(text: &str) -> Vec<(String, String)> {
+pub fn scan_module_level(text: &str) -> Vec<Vec<(String, String)>> {
     let b = text.as_bytes();
     let n = b.len();
     let mut i = 0;
     let mut depth = 0i32;
-    let mut out = Vec::new();
+    let mut out: Vec<Vec<(String, String)>> = Vec::new();
     let mut toks: Vec<(usize, usize)> = Vec::new();
     // tokenise
     while i < n {
@@ -130,8 +130,13 @@ pub fn scan_module_level(text: &str) -> Vec<(String, String)> {
     while k < toks.len() {
         match t(k) {
             "/begin" => {
+                if depth == 1 && k + 1 < toks.len() && t(k + 1) == "MODULE" {
+                    out.push(Vec::new());
+                }
                 if depth == 2 && k + 2 < toks.len() {
-                    out.push((t(k + 1).to_string(), t(k + 2).to_string()));
+                    if let Some(m) = out.last_mut() {
+                        m.push((t(k + 1).to_string(), t(k + 2).to_string()));
+                    }
                 }
                 depth += 1;
                 k += 2;
@@ -203,25 +208,36 @@ impl Scenario for C15Histories {
         for _ in 0..nkinds {
             kinds_here.push(*cx.tape.pick(&KINDS));
         }
-        let mut text = String::from("ASAP2_VERSION 1 71\n/begin PROJECT proj \"\"\n  /begin MODULE mod \"\"\n");
-        if cx.tape.chance(1, 3) {
-            text.push_str("    /begin MOD_COMMON \"\" /end MOD_COMMON\n");
-        }
-        for _ in 0..size {
-            let kind = *cx.tape.pick(&kinds_here);
-            let name = fresh(cx);
-            if cx.tape.chance(1, 10) {
-                text.push_str(if cx.tape.chance(1, 2) { "    /* section comment */\n" } else { "    // line comment\n" });
+        let nmodules = *cx.tape.pick(&[1usize, 1, 1, 2, 2, 3]);
+        let mut text = String::from("ASAP2_VERSION 1 71\n/begin PROJECT proj \"\"\n");
+        let mut sizes = Vec::new();
+        for mi in 0..nmodules {
+            text.push_str(&format!("  /begin MODULE mod{mi} \"\"\n"));
+            if cx.tape.chance(1, 3) {
+                text.push_str("    /begin MOD_COMMON \"\" /end MOD_COMMON\n");
             }
-            if cx.tape.chance(1, 20) {
-                text.push_str("    /begin IF_DATA VENDOR 1 2 /begin BLK x /end BLK /end IF_DATA\n");
+            let msize = if mi == 0 { size } else { *cx.tape.pick(&[0u64, 2, 6, 20]) };
+            sizes.push(msize as usize);
+            for _ in 0..msize {
+                let kind = *cx.tape.pick(&kinds_here);
+                let name = fresh(cx);
+                if cx.tape.chance(1, 10) {
+                    text.push_str(if cx.tape.chance(1, 2) { "    /* section comment */\n" } else { "    // line comment\n" });
+                }
+                if cx.tape.chance(1, 20) {
+                    text.push_str("    /begin IF_DATA VENDOR 1 2 /begin BLK x /end BLK /end IF_DATA\n");
+                }
+                text.push_str("    ");
+                text.push_str(&element_text(kind, &name));
+                text.push_str(if cx.tape.chance(1, 8) { "\n\n" } else { "\n" });
             }
-            text.push_str("    ");
-            text.push_str(&element_text(kind, &name));
-            text.push_str(if cx.tape.chance(1, 8) { "\n\n" } else { "\n" });
+            text.push_str("  /end MODULE\n");
         }
-        text.push_str("  /end MODULE\n/end PROJECT\n");
-        cx.event_lazy(&format!("initial file: {size} elements of {} kinds", kinds_here.len()), || crate::runner::clip(&text, 1500));
+        text.push_str("/end PROJECT\n");
+        cx.event_lazy(&format!("initial file: {nmodules} modules with {sizes:?} elements of {} kinds", kinds_here.len()), || crate::runner::clip(&text, 1500));
+        if nmodules > 1 {
+            cx.probe("file-with-several-modules");
+        }
         let mut file = match sut::load_str(cx, "load", &text, None, true)? {
             Ok((f, _)) => f,
             Err(e) => {
@@ -231,9 +247,15 @@ impl Scenario for C15Histories {
             }
         };
         let first = sut::write_str(cx, "no-panic", &file)?;
-        let mut om = OrderModel { placed: scan_module_level(&first).into_iter().filter(|e| KINDS.contains(&e.0.as_str())).collect(), pending: Vec::new() };
-        if om.placed.len() != size as usize {
-            return Err(cx.fail("order", "element-lost", format!("the initial file has {size} elements, the first output {}", om.placed.len())));
+        let scanned = scan_module_level(&first);
+        if scanned.len() != nmodules {
+            return Err(cx.fail("order", "module-lost", format!("the initial file has {nmodules} modules, the first output {}", scanned.len())));
+        }
+        let mut oms: Vec<OrderModel> = scanned.into_iter().map(|m| OrderModel { placed: m.into_iter().filter(|e| KINDS.contains(&e.0.as_str())).collect(), pending: Vec::new() }).collect();
+        for (mi, om) in oms.iter().enumerate() {
+            if om.placed.len() != sizes[mi] {
+                return Err(cx.fail("order", "element-lost", format!("module {mi} of the initial file has {} elements, the first output {}", sizes[mi], om.placed.len())));
+            }
         }
 
         // ---- history
@@ -274,9 +296,10 @@ impl Scenario for C15Histories {
                     // mostly kinds that already exist in the file, sometimes any kind
                     let kind = if !kinds_here.is_empty() && cx.tape.chance(3, 4) { *cx.tape.pick(&kinds_here) } else { *cx.tape.pick(&KINDS) };
                     let name = fresh(cx);
-                    desc = format!("push new {kind} {name}");
-                    guarded(cx, "no-panic", &desc, || push_new(&mut file.project.module[0], kind, &name))?;
-                    om.pending.push((kind.to_string(), name));
+                    let mi = cx.tape.draw(nmodules as u64) as usize;
+                    desc = format!("push new {kind} {name} into module {mi}");
+                    guarded(cx, "no-panic", &desc, || push_new(&mut file.project.module[mi], kind, &name))?;
+                    oms[mi].pending.push((kind.to_string(), name));
                     consecutive_sorts = 0;
                 }
                 1 => {
@@ -297,7 +320,7 @@ impl Scenario for C15Histories {
                         Err(e) => return Err(cx.fail("harness", "merge-module-rejected", format!("{e}"))),
                     };
                     guarded(cx, "no-panic", &desc, || file.merge_modules(&mut other))?;
-                    om.pending.extend(added);
+                    oms[0].pending.extend(added);
                     merges += 1;
                     consecutive_sorts = 0;
                 }
@@ -308,7 +331,7 @@ impl Scenario for C15Histories {
                         cx.probe(">=16-consecutive-sort_new_items");
                     }
                     // known-finding trigger: position ids double on every call
-                    let elems = (om.placed.len() + om.pending.len()).max(1) as f64;
+                    let elems = oms.iter().map(|om| om.placed.len() + om.pending.len()).max().unwrap_or(1).max(1) as f64;
                     if f64::from(consecutive_sorts) + elems.log2() >= 30.0 {
                         cx.trigger("position-ids-doubled->=2^30");
                     }
@@ -335,73 +358,82 @@ impl Scenario for C15Histories {
             }
             // ---- observe after every step
             let out_text = sut::write_str(cx, "no-panic", &file)?;
-            let out = scan_module_level(&out_text);
+            let outs = scan_module_level(&out_text);
             cx.event(&format!("{step}: {desc}"));
-            let pos = match check_order(cx, &om, &out, step, &desc) {
-                Ok(p) => p,
-                Err(v) => {
-                    cx.event_lazy("output", || crate::runner::clip(&out_text, 2500));
-                    return Err(v);
-                }
-            };
-            match op {
-                2 => {
-                    let placed_kinds: BTreeSet<&str> = om.placed.iter().map(|e| e.0.as_str()).collect();
-                    let mut still_pending = Vec::new();
-                    let mut newly_placed = Vec::new();
-                    for p in &om.pending {
-                        if placed_kinds.contains(p.0.as_str()) {
-                            // directly after the last placed element of its kind: after it, and before every placed element that followed it
-                            let last_idx = om.placed.iter().rposition(|e| e.0 == p.0).unwrap();
-                            let last = &om.placed[last_idx];
-                            if pos[p] < pos[last] {
-                                cx.event_lazy("output", || crate::runner::clip(&out_text, 2500));
-                                return Err(cx.fail("order", "new-element-before-last-of-its-kind", format!("step {step}: {} {} was inserted before {} {}, the last placed element of its kind", p.0, p.1, last.0, last.1)));
-                            }
-                            if let Some(next) = om.placed.get(last_idx + 1) {
-                                if pos[p] > pos[next] {
+            if outs.len() != nmodules {
+                return Err(cx.fail("order", "module-lost", format!("step {step} ({desc}): output has {} modules instead of {nmodules}", outs.len())));
+            }
+            for (mi, out) in outs.iter().enumerate() {
+                let om = &mut oms[mi];
+                let pos = match check_order(cx, om, out, step, &desc) {
+                    Ok(p) => p,
+                    Err(v) => {
+                        cx.event_lazy("output", || crate::runner::clip(&out_text, 2500));
+                        return Err(v);
+                    }
+                };
+                match op {
+                    2 => {
+                        let placed_kinds: BTreeSet<&str> = om.placed.iter().map(|e| e.0.as_str()).collect();
+                        let mut still_pending = Vec::new();
+                        let mut newly_placed = Vec::new();
+                        for p in &om.pending {
+                            if placed_kinds.contains(p.0.as_str()) {
+                                // directly after the last placed element of its kind: after it, and before every placed element that followed it
+                                let last_idx = om.placed.iter().rposition(|e| e.0 == p.0).unwrap();
+                                let last = &om.placed[last_idx];
+                                if pos[p] < pos[last] {
                                     cx.event_lazy("output", || crate::runner::clip(&out_text, 2500));
-                                    return Err(cx.fail("order", "new-element-not-directly-after-its-kind", format!("step {step}: {} {} was inserted after {} {}, which follows the last placed element of its kind ({} {})", p.0, p.1, next.0, next.1, last.0, last.1)));
+                                    return Err(cx.fail("order", "new-element-before-last-of-its-kind", format!("step {step}, module {mi}: {} {} was inserted before {} {}, the last placed element of its kind", p.0, p.1, last.0, last.1)));
                                 }
-                            }
-                            newly_placed.push(p.clone());
-                        } else {
-                            // no placed element of that kind: at the end, after all placed elements
-                            if let Some(maxp) = om.placed.iter().map(|e| pos[e]).max() {
-                                if pos[p] < maxp {
-                                    cx.event_lazy("output", || crate::runner::clip(&out_text, 2500));
-                                    return Err(cx.fail("order", "kindless-new-element-not-at-end", format!("step {step}: {} {} has no placed element of its kind and must stay at the end", p.0, p.1)));
+                                if let Some(next) = om.placed.get(last_idx + 1) {
+                                    if pos[p] > pos[next] {
+                                        cx.event_lazy("output", || crate::runner::clip(&out_text, 2500));
+                                        return Err(cx.fail("order", "new-element-not-directly-after-its-kind", format!("step {step}, module {mi}: {} {} was inserted after {} {}, which follows the last placed element of its kind ({} {})", p.0, p.1, next.0, next.1, last.0, last.1)));
+                                    }
                                 }
+                                newly_placed.push(p.clone());
+                            } else {
+                                // no placed element of that kind: at the end, after all placed elements
+                                if let Some(maxp) = om.placed.iter().map(|e| pos[e]).max() {
+                                    if pos[p] < maxp {
+                                        cx.event_lazy("output", || crate::runner::clip(&out_text, 2500));
+                                        return Err(cx.fail("order", "kindless-new-element-not-at-end", format!("step {step}, module {mi}: {} {} has no placed element of its kind and must stay at the end", p.0, p.1)));
+                                    }
+                                }
+                                still_pending.push(p.clone());
                             }
-                            still_pending.push(p.clone());
                         }
+                        if !newly_placed.is_empty() {
+                            sorts_with_effect += 1;
+                            cx.nontrivial = true;
+                            if mi > 0 {
+                                cx.probe("new-elements-placed-in-a-later-module");
+                            }
+                        }
+                        om.pending = still_pending;
+                        // the new placed order is the output order of all placed elements
+                        let mut all: Vec<(String, String)> = om.placed.iter().cloned().chain(newly_placed).collect();
+                        all.sort_by_key(|e| pos[e]);
+                        om.placed = all;
                     }
-                    if !newly_placed.is_empty() {
-                        sorts_with_effect += 1;
-                        cx.nontrivial = true;
+                    4 => {
+                        // after a reload every element has a position in the file
+                        let mut all: Vec<(String, String)> = om.placed.iter().cloned().chain(om.pending.iter().cloned()).collect();
+                        all.sort_by_key(|e| pos[e]);
+                        om.placed = all;
+                        om.pending.clear();
                     }
-                    om.pending = still_pending;
-                    // the new placed order is the output order of all placed elements
-                    let mut all: Vec<(String, String)> = om.placed.iter().cloned().chain(newly_placed).collect();
-                    all.sort_by_key(|e| pos[e]);
-                    om.placed = all;
+                    _ => {}
                 }
-                4 => {
-                    // after a reload every element has a position in the file
-                    let mut all: Vec<(String, String)> = om.placed.iter().cloned().chain(om.pending.iter().cloned()).collect();
-                    all.sort_by_key(|e| pos[e]);
-                    om.placed = all;
-                    om.pending.clear();
-                }
-                _ => {}
             }
         }
         let mut profile: BTreeMap<&str, u32> = BTreeMap::new();
-        for p in &om.pending {
+        for p in oms.iter().flat_map(|om| om.pending.iter()) {
             *profile.entry(p.0.as_str()).or_insert(0) += 1;
         }
         cx.sig(&format!(
-            "size{}|kinds{}|sortrun{}|effect{}|merge{}|pendingkinds{}",
+            "mods{nmodules}|size{}|kinds{}|sortrun{}|effect{}|merge{}|pendingkinds{}",
             match size {
                 0 => 0,
                 1..=4 => 1,
